@@ -326,3 +326,144 @@ package parser
 //@ requires pr != nil
 //@ modifies p.errs, elems(p.errs)
 //@ ensures len(p.errs) == old(len(p.errs)) + 1
+
+// ---- C07: literals ----------------------------------------------------------------------------
+
+//@ extern strconv.ParseInt
+//@ pure
+//@ extern strconv.ParseFloat
+//@ pure
+
+// a number literal is the integer ParseInt(text, 0, 64) reads (decimal, 0x.., 0o.., 0b..), and
+// only when that fails the float64 ParseFloat(text, 64) reads; when both fail an error is
+// recorded and there is no node
+//@ func (*parser).newNumberLiteral
+//@ props C05 C07
+//@ ensures ncalls(strconv.ParseInt) == 1 && callarg(strconv.ParseInt, 0, 0) == v.Val && callarg(strconv.ParseInt, 0, 1) == 0 && callarg(strconv.ParseInt, 0, 2) == 64
+//@ ensures callres(strconv.ParseInt, 0, 1) == nil ==> result != nil && result.NodeType == ast.TypeIntegerLiteral && result.elem.(*ast.IntegerLiteral).Val == callres(strconv.ParseInt, 0, 0) && ncalls(strconv.ParseFloat) == 0 && len(p.errs) == old(len(p.errs))
+//@ ensures callres(strconv.ParseInt, 0, 1) != nil ==> ncalls(strconv.ParseFloat) == 1 && callarg(strconv.ParseFloat, 0, 0) == v.Val && callarg(strconv.ParseFloat, 0, 1) == 64
+//@ ensures callres(strconv.ParseInt, 0, 1) != nil && callres(strconv.ParseFloat, 0, 1) == nil ==> result != nil && result.NodeType == ast.TypeFloatLiteral && same(result.elem.(*ast.FloatLiteral).Val, callres(strconv.ParseFloat, 0, 0)) && len(p.errs) == old(len(p.errs))
+//@ ensures callres(strconv.ParseInt, 0, 1) != nil && callres(strconv.ParseFloat, 0, 1) != nil ==> result == nil && len(p.errs) == old(len(p.errs)) + 1
+
+// a leading sign is folded into a numeric literal: - negates it, + leaves it
+//@ func (*parser).newUnaryExpr
+//@ props C07
+//@ ensures r != nil && (op.Typ == SUB || op.Typ == ADD) && old(r.NodeType) == ast.TypeIntegerLiteral ==> result == r && r.elem.(*ast.IntegerLiteral).Val == (op.Typ == SUB ? -old(r.elem.(*ast.IntegerLiteral).Val) : old(r.elem.(*ast.IntegerLiteral).Val))
+//@ ensures r != nil && (op.Typ == SUB || op.Typ == ADD) && old(r.NodeType) == ast.TypeFloatLiteral ==> result == r && same(r.elem.(*ast.FloatLiteral).Val, (op.Typ == SUB ? -old(r.elem.(*ast.FloatLiteral).Val) : old(r.elem.(*ast.FloatLiteral).Val)))
+//@ ensures r == nil ==> result == nil
+
+// string literals: the node holds the text exactly as given (the grammar passes the unquoted text)
+//@ func (*parser).newStringLiteral
+//@ props C05 C07
+//@ ensures result != nil && result.NodeType == ast.TypeStringLiteral && result.elem.(*ast.StringLiteral).Val == val.Val
+
+//@ func (*parser).unquoteString
+//@ props C05 C07
+//@ ensures ncalls(Unquote) == 1 && callarg(Unquote, 0, 0) == s
+//@ ensures callres(Unquote, 0, 1) == nil ==> result == callres(Unquote, 0, 0) && len(p.errs) == old(len(p.errs))
+//@ ensures callres(Unquote, 0, 1) != nil ==> result == "" && len(p.errs) == old(len(p.errs)) + 1
+
+//@ func (*parser).unquoteMultilineString
+//@ props C05 C07
+//@ ensures ncalls(UnquoteMultiline) == 1 && callarg(UnquoteMultiline, 0, 0) == s
+//@ ensures callres(UnquoteMultiline, 0, 1) == nil ==> result == callres(UnquoteMultiline, 0, 0) && len(p.errs) == old(len(p.errs))
+//@ ensures callres(UnquoteMultiline, 0, 1) != nil ==> result == "" && len(p.errs) == old(len(p.errs)) + 1
+
+// keywords are recognised in any letter case: the word is looked up lower-cased
+//@ func lexKeywordOrIdentifier
+//@ ensures[C07] l.scannedItem ==> ncalls(strings.ToLower) == 1 && ncalls((*Lexer).emit) == 1 && callarg((*Lexer).emit, 0, 1) == (dom(keywords, callres(strings.ToLower, 0, 0)) ? keywords[callres(strings.ToLower, 0, 0)] : ID)
+
+//@ global ErrSyntax nonnil
+//@ extern unicode/utf8.EncodeRune
+//@ modifies elemsof(byte)
+//@ ensures 1 <= result && result <= 4
+
+// ---- unquoting (adapted from strconv) ----------------------------------------------------------------
+
+//@ func unhex
+//@ props C07
+//@ pure
+//@ ensures 48 <= b && b <= 57 ==> result1 && result0 == rune(b) - 48
+//@ ensures 97 <= b && b <= 102 ==> result1 && result0 == rune(b) - 97 + 10
+//@ ensures 65 <= b && b <= 70 ==> result1 && result0 == rune(b) - 65 + 10
+//@ ensures !(48 <= b && b <= 57) && !(97 <= b && b <= 102) && !(65 <= b && b <= 70) ==> !result1
+//@ ensures result1 ==> 0 <= result0 && result0 <= 15
+
+//@ func contains
+//@ props C07
+//@ pure
+//@ ensures result <==> (exists i :: 0 <= i && i < len(s) && s[i] == c)
+//@ loop 1
+//@ invariant 0 <= i && i <= len(s) && (forall j :: 0 <= j && j < i ==> s[j] != c)
+
+// one character or escape sequence of a quoted string (Go-style escapes)
+//@ func unquoteChar
+//@ props C07
+//@ intmode bv64
+//@ requires len(s) >= 1
+//@ ensures multiline && s[0] < 128 ==> result3 == nil && result0 == rune(s[0]) && !result1 && result2 == s[1:]
+//@ ensures !multiline && s[0] == quote && (quote == 39 || quote == 34) ==> result3 != nil
+//@ ensures !multiline && !(s[0] == quote && (quote == 39 || quote == 34)) && s[0] < 128 && s[0] != 92 ==> result3 == nil && result0 == rune(s[0]) && !result1 && result2 == s[1:]
+//@ ensures !multiline && s[0] == 92 && len(s) == 1 && !(quote == 92) ==> result3 != nil
+// the single-character escapes
+//@ ensures !multiline && quote != 92 && len(s) >= 2 && s[0] == 92 && s[1] == 97 ==> result3 == nil && result0 == 7 && !result1 && result2 == s[2:]
+//@ ensures !multiline && quote != 92 && len(s) >= 2 && s[0] == 92 && s[1] == 98 ==> result3 == nil && result0 == 8 && !result1 && result2 == s[2:]
+//@ ensures !multiline && quote != 92 && len(s) >= 2 && s[0] == 92 && s[1] == 102 ==> result3 == nil && result0 == 12 && !result1 && result2 == s[2:]
+//@ ensures !multiline && quote != 92 && len(s) >= 2 && s[0] == 92 && s[1] == 110 ==> result3 == nil && result0 == 10 && !result1 && result2 == s[2:]
+//@ ensures !multiline && quote != 92 && len(s) >= 2 && s[0] == 92 && s[1] == 114 ==> result3 == nil && result0 == 13 && !result1 && result2 == s[2:]
+//@ ensures !multiline && quote != 92 && len(s) >= 2 && s[0] == 92 && s[1] == 116 ==> result3 == nil && result0 == 9 && !result1 && result2 == s[2:]
+//@ ensures !multiline && quote != 92 && len(s) >= 2 && s[0] == 92 && s[1] == 118 ==> result3 == nil && result0 == 11 && !result1 && result2 == s[2:]
+//@ ensures !multiline && quote != 92 && len(s) >= 2 && s[0] == 92 && s[1] == 92 ==> result3 == nil && result0 == 92 && !result1 && result2 == s[2:]
+// an escaped quote is only the string's own quote
+//@ ensures !multiline && quote != 92 && len(s) >= 2 && s[0] == 92 && (s[1] == 39 || s[1] == 34) ==> (result3 == nil <==> s[1] == quote)
+//@ ensures !multiline && quote != 92 && len(s) >= 2 && s[0] == 92 && (s[1] == 39 || s[1] == 34) && s[1] == quote ==> result0 == rune(s[1]) && !result1 && result2 == s[2:]
+// \xHH is one raw byte; \uHHHH and \UHHHHHHHH are code points (encoded as UTF-8 by the caller)
+//@ ensures !multiline && quote != 92 && len(s) >= 2 && s[0] == 92 && s[1] == 120 && len(s) < 4 ==> result3 != nil
+//@ ensures !multiline && quote != 92 && len(s) >= 4 && s[0] == 92 && s[1] == 120 && result3 == nil ==> !result1 && 0 <= result0 && result0 <= 255 && len(result2) == len(s) - 4
+//@ ensures !multiline && quote != 92 && len(s) >= 2 && s[0] == 92 && s[1] == 117 && result3 == nil ==> len(s) >= 6 && result1 && len(result2) == len(s) - 6
+//@ ensures !multiline && quote != 92 && len(s) >= 2 && s[0] == 92 && s[1] == 85 && result3 == nil ==> len(s) >= 10 && result1 && len(result2) == len(s) - 10 && result0 <= 1114111
+// \ooo is one raw byte, at most 255
+//@ ensures !multiline && quote != 92 && len(s) >= 2 && s[0] == 92 && 48 <= s[1] && s[1] <= 55 && result3 == nil ==> len(s) >= 4 && !result1 && 0 <= result0 && result0 <= 255 && len(result2) == len(s) - 4
+// anything else after a backslash is malformed
+//@ ensures !multiline && quote != 92 && len(s) >= 2 && s[0] == 92 && s[1] != 97 && s[1] != 98 && s[1] != 102 && s[1] != 110 && s[1] != 114 && s[1] != 116 && s[1] != 118 && s[1] != 120 && s[1] != 117 && s[1] != 85 && !(48 <= s[1] && s[1] <= 55) && s[1] != 92 && s[1] != 39 && s[1] != 34 ==> result3 != nil
+//@ loop 1
+//@ invariant 0 <= j && j <= n && n <= len(s) && (j == 0 ==> v == 0) && (j == 1 ==> 0 <= v && v < 16) && (j == 2 ==> 0 <= v && v < 256)
+//@ loop 2
+//@ invariant 0 <= j && j <= 2 && 2 <= len(s) && 0 <= v && (j == 0 ==> v <= 7) && (j == 1 ==> v <= 63) && (j == 2 ==> v <= 511)
+
+// a quoted string: the quotes must match; a back-quoted name is taken as it is and may not
+// contain a back quote; a single- or double-quoted string may not contain a line break; text
+// without backslash and quote is taken as it is; a malformed escape is an error
+// (what `contains` answers is its own contract: some byte of the text equals the given byte)
+//@ func Unquote
+//@ props C07
+//@ exits separate
+//@ ensures len(s) < 2 ==> result1 != nil
+//@ ensures len(s) >= 2 && s[0] != s[len(s)-1] ==> result1 != nil
+//@ ensures len(s) >= 2 && s[0] == s[len(s)-1] && s[0] != 96 && s[0] != 34 && s[0] != 39 ==> result1 != nil
+//@ ensures ncalls(contains) >= 1 ==> callarg(contains, 0, 0) == s[1:len(s)-1]
+//@ ensures len(s) >= 2 && s[0] == 96 && s[len(s)-1] == 96 ==> ncalls(contains) == 1 && callarg(contains, 0, 1) == 96 && (result1 == nil <==> !callres(contains, 0, 0)) && (result1 == nil ==> result0 == s[1:len(s)-1])
+//@ ensures len(s) >= 2 && s[0] == s[len(s)-1] && (s[0] == 34 || s[0] == 39) ==> callarg(contains, 0, 1) == 10 && (callres(contains, 0, 0) ==> result1 != nil)
+//@ ensures len(s) >= 2 && s[0] == s[len(s)-1] && (s[0] == 34 || s[0] == 39) && !callres(contains, 0, 0) ==> ncalls(contains) >= 2 && callarg(contains, 1, 0) == s[1:len(s)-1] && callarg(contains, 1, 1) == 92
+//@ ensures len(s) >= 2 && s[0] == s[len(s)-1] && (s[0] == 34 || s[0] == 39) && !callres(contains, 0, 0) && !callres(contains, 1, 0) ==> ncalls(contains) == 3 && callarg(contains, 2, 0) == s[1:len(s)-1] && callarg(contains, 2, 1) == s[0] && (!callres(contains, 2, 0) ==> result1 == nil && result0 == s[1:len(s)-1])
+// every escape goes through unquoteChar with the string's own quote, and its error is the result
+//@ ensures forall k mathint :: 0 <= k && k < ncalls(unquoteChar) ==> callarg(unquoteChar, k, 1) == s[0] && !callarg(unquoteChar, k, 2)
+//@ ensures ncalls(unquoteChar) >= 1 && callres(unquoteChar, ncalls(unquoteChar) - 1, 3) != nil ==> result1 != nil
+//@ loop 1
+//@ invariant forall k mathint :: 0 <= k && k < ncalls(unquoteChar) ==> callarg(unquoteChar, k, 1) == quote && !callarg(unquoteChar, k, 2) && callres(unquoteChar, k, 3) == nil
+
+//@ func UnquoteMultiline
+//@ props C07
+//@ exits separate
+//@ ensures len(s) < 6 ==> result1 != nil
+//@ ensures len(s) == 6 ==> result1 == nil && result0 == ""
+//@ ensures len(s) > 6 && (s[0] != s[len(s)-1] || s[1] != s[len(s)-2] || s[2] != s[len(s)-3]) ==> result1 != nil
+//@ ensures len(s) > 6 && s[0] != 34 && s[0] != 39 ==> result1 != nil
+// the text between the triple quotes is taken raw: every character goes through unquoteChar in raw mode
+//@ ensures forall k mathint :: 0 <= k && k < ncalls(unquoteChar) ==> callarg(unquoteChar, k, 2)
+//@ ensures len(s) > 6 && result1 == nil && ncalls(unquoteChar) == 0 ==> len(result0) == len(s) - 6 && (forall i :: 0 <= i && i < len(result0) ==> result0[i] == s[i+3])
+//@ loop 1
+//@ invariant 0 <= i && i <= 3 && n == len(s) && (forall j :: 0 <= j && j < i ==> s[j] == s[n-(j+1)])
+//@ loop 2
+//@ invariant forall k mathint :: 0 <= k && k < ncalls(unquoteChar) ==> callarg(unquoteChar, k, 2)
+//@ invariant n == len(old(s)) && (ncalls(unquoteChar) == 0 ==> len(s) == n - 6)
